@@ -14,6 +14,8 @@ from pgstat.model import normalise_tree, _canonical_receivers, _propagate_module
 
 CASES = r'''
 import functools
+import itertools as _it
+from operator import itemgetter as _ig
 _state = {"k": 1}
 
 @functools.lru_cache(maxsize=None)
@@ -435,6 +437,136 @@ def flag_loop_nested_break(xss, stop):
         return "all non-empty"
     return "empty row"
 
+class _Holder:
+    def __init__(self, d):
+        self._annotations = dict(d)
+
+def keys_loop(d):
+    h = _Holder(d)
+    out = []
+    for k in h._annotations:
+        units = h._annotations[k]
+        out.append((k, len(units), h._annotations[k][0]))
+    return out
+
+def keys_loop_keys_call(d):
+    h = _Holder(d)
+    out = []
+    for k in h._annotations.keys():
+        out.append((k, sum(h._annotations[k])))
+    return (out, k if d else None)
+
+def keys_loop_body_stores_must_stay(d):
+    h = _Holder(d)
+    for k in h._annotations:
+        h._annotations[k] = h._annotations[k] + [0]
+    return sorted(h._annotations.items())
+
+def keys_loop_other_key_must_stay(d, other):
+    h = _Holder(d)
+    out = []
+    for k in h._annotations:
+        out.append((h._annotations[k], h._annotations.get(other)))
+    return out
+
+def keys_loop_rebinds_key_must_stay(d):
+    h = _Holder(d)
+    out = []
+    for k in h._annotations:
+        v = h._annotations[k]
+        k = k + "!"
+        out.append((k, v))
+    return out
+
+def concat_rebinds_not_in_place(xs, ys):
+    alias = xs
+    xs = xs + ys
+    return (alias, xs)
+
+def concat_in_place(xs, ys):
+    alias = xs
+    xs += ys
+    return (alias, xs)
+
+def cached_append_in_try(rows):
+    out = []
+    for row in rows:
+        acc = []
+        push = acc.append
+        for i in (0, 1, 2):
+            try:
+                push(row[i])
+            except IndexError:
+                push(None)
+        out.append(acc)
+    return out
+
+def cached_method_in_try_catching_all_must_stay(obj, xs):
+    out = []
+    get = obj.index
+    for x in xs:
+        try:
+            out.append(get(x))
+        except Exception:
+            out.append("caught")
+    return out
+
+def cached_method_in_try_value_error(seq, xs):
+    out = []
+    find = seq.index
+    for x in xs:
+        try:
+            out.append(find(x))
+        except ValueError:
+            out.append(-1)
+    return out
+
+def getter_map_count(pairs):
+    from operator import itemgetter
+    return sum(1 for u in map(itemgetter(1), pairs) if u is not None)
+
+def getter_map_ctor(pairs):
+    return sorted(set(map(_ig(0), pairs)))
+
+def getter_sort_key(pairs):
+    return sorted(pairs, key=_ig(1))
+
+def enumerate_start(xs):
+    out = []
+    for i, x in enumerate(xs, start=1):
+        for y in xs[i:]:
+            out.append((i, x, y))
+    return out
+
+def enumerate_start_positional(xs):
+    return [(i, x) for i, x in enumerate(xs, 5)] + [j * 2 for j, _ in enumerate(xs, 1)]
+
+def enumerate_start_read_after_must_stay(xs):
+    i = 0
+    for i, x in enumerate(xs, 1):
+        pass
+    return i
+
+def chained_comprehension(rows):
+    every = _it.chain.from_iterable(r for r in rows)
+    kept = [(a, b) for a, b in every if b is not None]
+    return kept
+
+def chained_comprehension_inline(rows):
+    return {a for a, _ in _it.chain.from_iterable([r for r in rows if r])}
+
+def chained_used_twice_must_stay(rows):
+    every = _it.chain.from_iterable(r for r in rows)
+    first = [a for a, _ in every]
+    second = [a for a, _ in every]
+    return (first, second)
+
+def loop_var_read_after_comprehension_must_stay(xs):
+    out = []
+    for x in xs:
+        out.append(x * 2)
+    return (out, x if xs else None)
+
 def takes_three(a, b, c=3):
     return (a, b, c)
 
@@ -707,6 +839,16 @@ ARGS = {
     "flag_loop": [([1, 2, 3], 2), ([1, 2, 3], 9), ([], 1)], "flag_loop_negative": [([1, 2], 2), ([1, 2], 5)],
     "flag_loop_flag_read_later": [([1, 2], 2), ([1, 2], 5)], "flag_loop_break_without_set": [([1, None, 2], 2), ([1, 2], 2), ([1, 3], 2)],
     "flag_loop_nested_break": [([[1, 2], [3]], 2), ([[1], []], 1)],
+    "concat_rebinds_not_in_place": [([1], [2])], "concat_in_place": [([1], [2])],
+    "cached_append_in_try": [([[1, 2, 3], [4], []],)], "cached_method_in_try_catching_all_must_stay": [(None, [1]), ([1, 2], [2, 3])],
+    "cached_method_in_try_value_error": [([1, 2], [2, 3]), ((5,), [])],
+    "getter_map_count": [([("a", 1), ("b", None)],), ([],)], "getter_map_ctor": [([("b", 1), ("a", None), ("a", 2)],)], "getter_sort_key": [([("a", 3), ("b", 1)],)],
+    "enumerate_start": [([1, 2, 3],), ([],)], "enumerate_start_positional": [([7, 8],)], "enumerate_start_read_after_must_stay": [([7, 8],), ([],)],
+    "chained_comprehension": [([[("a", 1), ("b", None)], [("c", 2)]],), ([],)], "chained_comprehension_inline": [([[("a", 1)], [], [("c", 2)]],)],
+    "chained_used_twice_must_stay": [([[("a", 1)], [("c", 2)]],)], "loop_var_read_after_comprehension_must_stay": [([1, 2],), ([],)],
+    "keys_loop": [({"b": [1, 2], "a": [3]},), ({},)], "keys_loop_keys_call": [({"b": [1, 2], "a": [3]},), ({},)],
+    "keys_loop_body_stores_must_stay": [({"b": [1, 2], "a": [3]},)], "keys_loop_other_key_must_stay": [({"b": [1], "a": [3]}, "a")],
+    "keys_loop_rebinds_key_must_stay": [({"b": [1], "a": [3]},)],
     "calls_with_keywords": [(1,)],
     "alias_source_rebound_later": [(2,)], "field_read_then_store": [(_P(9),)], "element_read_then_pop": [([1, 2, 3],)],
     "temp_into_comprehension_scope": [(5,)], "temp_into_first_iterable": [(2,)], "literal_loop_with_break_must_stay": [(True, True, []), (False, True, [])],
@@ -744,6 +886,18 @@ def main() -> int:
     dropped = _inline.drop_unreferenced_helpers([tree])
     from pgstat.model import package_signatures
     normalise_tree(tree, frozenset(), record_classes([tree]), package_signatures([tree]))
+    # `x = x op y` and `x op= y` share one node shape in the normal form; the node of the former carries the mark `rebinds`, which is how the
+    # analyses tell them apart (flow.py treats a marked node as a plain assignment).  Python itself knows nothing of the mark, so the marked
+    # nodes are rendered back as assignments before the normal form is executed: what runs is what the analyses take the node to mean.
+    class _Unmark(ast.NodeTransformer):
+        def visit_AugAssign(self, node):
+            if getattr(node, "rebinds", False):
+                import copy as _copy
+                load = _copy.deepcopy(node.target)
+                load.ctx = ast.Load()
+                return ast.copy_location(ast.Assign(targets=[node.target], value=ast.BinOp(left=load, op=node.op, right=node.value)), node)
+            return node
+    tree = _Unmark().visit(tree)
     ast.fix_missing_locations(tree)
     norm_src = ast.unparse(tree)
     new = {"_Lock": _Lock, "_P": _P}
